@@ -323,6 +323,10 @@ def cases(tier, seed):
             nm = rng.sample(KW_NAMES + PLAIN_NAMES, 3)
             forced = (nm, {nm[0]: 2, nm[1]: 3, nm[2]: rng.choice([2, 4])}, {nm[2]: [nm[1], nm[0]], nm[1]: [nm[0]]}, None)
             n = 3
+        if n == "fixed-property":   # include_properties with variables and states called property / property_b
+            nm = ["property", "property_b", rng.choice(KW_NAMES[2:])]
+            forced = (nm, {nm[0]: 2, nm[1]: 3, nm[2]: 4}, {nm[2]: [nm[1], nm[0]], nm[1]: [nm[0]]}, 4)
+            n = 3
         return {"kind": "bn", "bn": gen_bn(rng, n or rng.choice([1, 2, 3, 4, 5]), states_kind=kind, forced=forced,
                                            modes=["dyadic16"] if torch_ else (["thirds", "dyadic", "near"] if forced else None)),
                 "njobs": njobs, "saveload": rng.random() < 0.15, "opts": o,
@@ -332,10 +336,14 @@ def cases(tier, seed):
     for rep in range(1 if tier == "quick" else 6):
         for opts, kind, nj in [({"round_values": 0}, "ident", 1), ({"round_values": 3, "session": True}, "ident", 1),
                                ({"props": True, "include_properties": True}, "ident", 1),
+                               ({"props": True, "include_properties": True, "session": True}, "ident-property", 1),
                                ({"decorate": True, "route": "path"}, "ident", 1),
                                ({"backend": "torch", "session": True}, "ident", 1), ({"session": True}, "int_perm", -1),
                                ({"props": True, "session": True, "route": "path"}, "default_int", 2),
                                ({"round_values": 12, "decorate": True}, "bool", 1)]:
+            if kind == "ident-property":
+                out.append(variant(opts, "ident", True, nj, n="fixed-property"))
+                continue
             out.append(variant(opts, kind, True, nj, n="fixed"))
     # every option drawn independently
     for i in range(36 if tier == "quick" else 500):
